@@ -47,6 +47,29 @@ CLAIMED = {
         note=TB + "assumed contracts: min(range,key=) returns a minimiser; numpy.linalg.lstsq returns the least-squares line (exact line for collinear data); "
                   "get_penetrant_data (filter) verified on all concrete lists up to length 3 (quick) / 5 (thorough) - bounded part, labelled in evidence; uniform stated/unstated lists",
         technique="contracts on the real functions; symbolic-length experiment list with uninterpreted element functions; z3; exp-product normalisation"),
+    'C02': dict(
+        level='proof', ref='DESIGN.md 3/C02',
+        text="get_partial_fluxes_from_permeate_composition is proved against the solution-diffusion law in the three permeate modes; the while loop of "
+             "calculate_partial_fluxes is cut at its head: initiation, preservation (next iterate = composition of the law's fluxes at the current iterate, "
+             "d = |change|), exit (returned fluxes = law at the final iterate, d < precision) for 3 modes x given/default permeances x both models; the exact "
+             "identities (vacuum, p=0, pressure identity), self-consistency under local non-expansiveness and the k-scaling (lock-step relational proof over the loop) are lemmas.",
+        note=TB + "get_partial_pressures / Membrane.get_permeance by contract (pure functions); contraction is a hypothesis of the statement; termination is C10",
+        technique="contracts + loop invariant at a cut point + lock-step self-composition; VCs from the AST; z3"),
+    'C10': dict(
+        level='proof', ref='DESIGN.md 3/C10',
+        text="A variant (cap - iterations, cap read from the source) is proved to decrease strictly and stay non-negative on every path that returns to the head of the only "
+             "while loop of the package, in all 3 modes x given/default permeances, with arbitrary precision; AST scans show there is no other while loop, every for loop "
+             "iterates over a range/list its body does not grow, and the call graph is acyclic. If no variant can be established the check searches natively for a "
+             "non-terminating input under a call-count watchdog (that is how the original unbounded loop is reported) and is otherwise undecided, never a violation.",
+        note=TB + "external calls terminate (assumed); call graph resolved by name with receiver typing from attrs annotations",
+        technique="termination contract: variant obligations (linear integer arithmetic) from the real loop body + AST scans; native watchdog replay"),
+    'C01': dict(
+        level='proof', ref='DESIGN.md 3/C01',
+        text="Each of the four process functions is executed symbolically with its step loop run once for a generic step k (recurrence extraction): total-mass and "
+             "component-mass balances, mass-fraction reporting, initial amount/composition (converted)/temperature, series lengths = N, time[k]=k*dt and identity of the "
+             "returned series with the loop's lists are proved for symbolic N, area, step, feed and every permeate mode / programme / curve-set shape / initial permeances.",
+        note=TB + "solver, permeance, fit and programme calls by contract; induction principle for append-only loops trusted (frame checked syntactically); rounding outside the model",
+        technique="contracts + loop recurrence extracted from the real body (generic iteration) + induction; z3"),
 }
 
 NOT_YET = "check under construction (see DESIGN.md section 7); not claimed until every obligation is in place"
